@@ -70,6 +70,8 @@ thread_local! {
     /// look-ahead rows the sequence object was configured with BEFORE being configured for the motif of the case
     /// (a sequence scanned with a shorter motif first and re-used)
     static PRE_WRAP: std::cell::Cell<Option<usize>> = std::cell::Cell::new(None);
+    /// spare sequence rows (see Case::spare); only the full-matrix and row-block scoring routes honour it
+    static SPARE: std::cell::Cell<usize> = std::cell::Cell::new(0);
 }
 
 fn conf<A: Alphabet, C: PositiveLength>(striped: &mut StripedSequence<A, C>, pssm: &ScoringMatrix<A>) {
@@ -85,7 +87,7 @@ where
     C: PositiveLength,
     PS: Score<u8, A, C>,
 {
-    let mut striped: StripedSequence<A, C> = Pipeline::<A, Generic>::generic().stripe(syms);
+    let mut striped: StripedSequence<A, C> = cfgs::respread(Pipeline::<A, Generic>::generic().stripe(syms), syms, SPARE.with(|x| x.get()));
     conf(&mut striped, pssm);
     let mut scores = StripedScores::<u8, C>::empty();
     ps.score_into(dm, &striped, &mut scores);
@@ -100,7 +102,7 @@ where
     C: PositiveLength,
     PS: Score<u8, A, C>,
 {
-    let mut striped: StripedSequence<A, C> = Pipeline::<A, Generic>::generic().stripe(syms);
+    let mut striped: StripedSequence<A, C> = cfgs::respread(Pipeline::<A, Generic>::generic().stripe(syms), syms, SPARE.with(|x| x.get()));
     conf(&mut striped, pssm);
     let r = striped.matrix().rows() - striped.wrap();
     let l = syms.len();
@@ -171,6 +173,9 @@ pub struct Case {
     pub origin: String,
     /// see PRE_WRAP
     pub pre_wrap: Option<usize>,
+    /// spare sequence rows of a hand-built striped sequence (StripedSequence::new accepts any matrix large enough
+    /// for the length); 0 = as striped by the library
+    pub spare: usize,
 }
 
 impl Case {
@@ -184,6 +189,7 @@ impl Case {
             "seq_text": model::ranks_to_text(letters, &self.seq[..self.seq.len().min(300)]),
             "kernel": k.map(|k| k.name()),
             "pre_wrap": self.pre_wrap,
+            "spare_rows": self.spare,
         })
     }
     fn from_json(v: &Value) -> Case {
@@ -193,6 +199,7 @@ impl Case {
             seq: model::ranks_from_json(&v["seq_ranks"]),
             origin: v["origin"].as_str().unwrap_or("").into(),
             pre_wrap: v["pre_wrap"].as_u64().map(|x| x as usize),
+            spare: v["spare_rows"].as_u64().unwrap_or(0) as usize,
         }
     }
 }
@@ -200,8 +207,10 @@ impl Case {
 /// Check one case under the given kernels. Returns (evaluations, nontrivial, failures).
 pub fn check_case(case: &Case, kernels: &[K8]) -> (u64, bool, Vec<(String, String, Option<K8>)>) {
     PRE_WRAP.with(|x| x.set(case.pre_wrap));
+    SPARE.with(|x| x.set(case.spare));
     let r = check_case_inner(case, kernels);
     PRE_WRAP.with(|x| x.set(None));
+    SPARE.with(|x| x.set(0));
     r
 }
 
@@ -616,7 +625,7 @@ pub fn run(ctx: &mut Ctx, rep: &mut Report) {
                             if start + m + extra > seq.len() {
                                 continue;
                             }
-                            let short = Case { alpha: "dna", matrix: matrix.clone(), seq: seq[start..start + m + extra].to_vec(), origin: format!("menu M={} matrix#{} wildcard-kind={} L=M+{}", m, mi, wk, extra), pre_wrap: None };
+                            let short = Case { alpha: "dna", matrix: matrix.clone(), seq: seq[start..start + m + extra].to_vec(), origin: format!("menu M={} matrix#{} wildcard-kind={} L=M+{}", m, mi, wk, extra), pre_wrap: None, spare: 0 };
                             let (e, nt, fails) = check_case(&short, &kd);
                             report_prefilter(&short, rep);
                             for _ in 0..e {
@@ -627,7 +636,7 @@ pub fn run(ctx: &mut Ctx, rep: &mut Report) {
                             }
                         }
                     }
-                    let case = Case { alpha: "dna", matrix, seq: seq.clone(), origin: format!("menu M={} matrix#{} wildcard-kind={}", m, mi, wk), pre_wrap: None };
+                    let case = Case { alpha: "dna", matrix, seq: seq.clone(), origin: format!("menu M={} matrix#{} wildcard-kind={}", m, mi, wk), pre_wrap: None, spare: 0 };
                     let (e, nt, fails) = check_case(&case, &kd);
                     report_prefilter(&case, rep);
                     for _ in 0..e {
@@ -649,6 +658,20 @@ pub fn run(ctx: &mut Ctx, rep: &mut Report) {
                         }
                         for (sig, msg, k) in fails {
                             rep.violation(format!("C08 dna {} over-configured {}", k.map(|k| k.name()).unwrap_or("-".into()), sig), msg, || again.json(k));
+                        }
+                    }
+                    // a hand-built striped sequence with spare sequence rows (seeded change C08-u: score_into deriving the
+                    // row count from the length instead of the matrix)
+                    if wk == 0 {
+                        for spare in [1usize, 3] {
+                            let again = Case { spare, origin: format!("{} hand-built with {} spare rows", case.origin, spare), ..case.clone() };
+                            let (e, nt, fails) = check_case(&again, &kd);
+                            for _ in 0..e {
+                                rep.eval_distinct(nt);
+                            }
+                            for (sig, msg, k) in fails {
+                                rep.violation(format!("C08 dna {} spare-rows {}", k.map(|k| k.name()).unwrap_or("-".into()), sig), msg, || again.json(k));
+                            }
                         }
                     }
                     // the same sequence object scanned with a SHORTER motif before (look-ahead rows added in two steps)
@@ -691,7 +714,7 @@ pub fn run(ctx: &mut Ctx, rep: &mut Report) {
                 }
                 let matrix = wide_matrix(m, fl);
                 let seq = wide_sequence(&matrix);
-                let case = Case { alpha: "dna", matrix, seq, origin: format!("wide M={} flavour={}", m, fl), pre_wrap: None };
+                let case = Case { alpha: "dna", matrix, seq, origin: format!("wide M={} flavour={}", m, fl), pre_wrap: None, spare: 0 };
                 let (e, nt, fails) = check_case(&case, &kd);
                 report_prefilter(&case, rep);
                 for _ in 0..e {
@@ -702,6 +725,16 @@ pub fn run(ctx: &mut Ctx, rep: &mut Report) {
                 }
                 for (sig, msg, k) in fails {
                     rep.violation(format!("C08 dna {} {}", k.map(|k| k.name()).unwrap_or("-".into()), sig), msg, || case.json(k));
+                }
+                for spare in [1usize, 2] {
+                    let again = Case { spare, origin: format!("{} hand-built with {} spare rows", case.origin, spare), ..case.clone() };
+                    let (e, nt, fails) = check_case(&again, &kd);
+                    for _ in 0..e {
+                        rep.eval_distinct(nt);
+                    }
+                    for (sig, msg, k) in fails {
+                        rep.violation(format!("C08 dna {} spare-rows {}", k.map(|k| k.name()).unwrap_or("-".into()), sig), msg, || again.json(k));
+                    }
                 }
                 for pre in [2usize, m / 2, m + 5] {
                     let again = Case { pre_wrap: Some(pre), origin: format!("{} reconfigured from {} look-ahead rows", case.origin, pre), ..case.clone() };
@@ -724,7 +757,7 @@ pub fn run(ctx: &mut Ctx, rep: &mut Report) {
             }
             let matrix = crate::c01::make_matrix("logodds", m, 5, 0);
             let seq = wide_sequence(&matrix);
-            let case = Case { alpha: "dna", matrix, seq, origin: format!("wide logodds M={}", m), pre_wrap: None };
+            let case = Case { alpha: "dna", matrix, seq, origin: format!("wide logodds M={}", m), pre_wrap: None, spare: 0 };
             report_prefilter(&case, rep);
             let (e, nt, fails) = check_case(&case, &kd);
             for _ in 0..e {
@@ -749,7 +782,7 @@ pub fn run(ctx: &mut Ctx, rep: &mut Report) {
                 let best: Vec<u8> = matrix.iter().map(|r| (0..20).max_by(|&a, &b| r[a].partial_cmp(&r[b]).unwrap()).unwrap() as u8).collect();
                 seq.extend(&best);
                 seq.extend(&best);
-                let case = Case { alpha: "protein", matrix, seq, origin: format!("wide protein {} M={}", kind, m), pre_wrap: None };
+                let case = Case { alpha: "protein", matrix, seq, origin: format!("wide protein {} M={}", kind, m), pre_wrap: None, spare: 0 };
                 let (e, nt, fails) = check_case(&case, &kp);
                 for _ in 0..e {
                     rep.eval_distinct(nt);
